@@ -104,4 +104,44 @@ theorem gen_checked_sub_months_eq (d : Date) (n : Nat) (hd : -2147483648 ≤ d.y
       exact GenDate.gen_diff_months_eq d _ hd
     · rw [if_neg h, if_neg (by omega)]; rfl
 
+/-! ### differences -/
+
+theorem yo_to_cycle_le (ym o : Nat) (h1 : ym ≤ 400) : Date.yo_to_cycle ym o ≤ ym * 365 + 97 + o := by
+  unfold Date.yo_to_cycle
+  have := tbl_yd.2.2 ym (by omega)
+  omega
+
+theorem gen_date_signed_duration_since_eq (a b : Date)
+    (ha : -2147483648 ≤ a.yof ∧ a.yof ≤ 2147483647) (hb : -2147483648 ≤ b.yof ∧ b.yof ≤ 2147483647)
+    (hoa : 1 ≤ a.ordinal) (hob : 1 ≤ b.ordinal) :
+    Gen.naive_date.NaiveDate.signed_duration_since a.yof b.yof
+      = rmap dG (a.signed_duration_since b) := by
+  unfold Gen.naive_date.NaiveDate.signed_duration_since Date.signed_duration_since
+  simp only [GenDate.gen_year_eq, GenDate.gen_ordinal_eq]
+  have hya : -262144 ≤ a.year ∧ a.year ≤ 262143 := by unfold Date.year; omega
+  have hyb : -262144 ≤ b.year ∧ b.year ≤ 262143 := by unfold Date.year; omega
+  have hoa2 : a.ordinal ≤ 511 := by unfold Date.ordinal; omega
+  have hob2 : b.ordinal ≤ 511 := by unfold Date.ordinal; omega
+  rw [GenDate.gen_div_mod_floor_eq _ 400 (by omega) (by omega), bind_ok,
+    GenDate.gen_div_mod_floor_eq _ 400 (by omega) (by omega), bind_ok]
+  dsimp only
+  have e1 : asU32 (a.year % 400) = ((a.year % 400).toNat : Int) := by unfold asU32; omega
+  have e2 : asU32 (b.year % 400) = ((b.year % 400).toNat : Int) := by unfold asU32; omega
+  have e3 : a.ordinal = (a.ordinal.toNat : Int) := by omega
+  have e4 : b.ordinal = (b.ordinal.toNat : Int) := by omega
+  rw [e1, e2]
+  have g1 := GenDate.gen_yo_to_cycle_eq (a.year % 400).toNat a.ordinal.toNat (by omega) (by omega) (by omega)
+  have g2 := GenDate.gen_yo_to_cycle_eq (b.year % 400).toNat b.ordinal.toNat (by omega) (by omega) (by omega)
+  rw [← e3] at g1
+  rw [← e4] at g2
+  rw [g1, bind_ok, g2, bind_ok]
+  have b1 := yo_to_cycle_le (a.year % 400).toNat a.ordinal.toNat (by omega)
+  have b2 := yo_to_cycle_le (b.year % 400).toNat b.ordinal.toNat (by omega)
+  generalize Date.yo_to_cycle (a.year % 400).toNat a.ordinal.toNat = c1 at *
+  generalize Date.yo_to_cycle (b.year % 400).toNat b.ordinal.toNat = c2 at *
+  rw [ckI64_ok (by omega), bind_ok, ckI64_ok (by omega), bind_ok, ckI64_ok (by omega), bind_ok,
+    ckI64_ok (by omega), bind_ok, GenDelta.gen_try_days_eq]
+  dsimp only
+  cases Delta.try_days ((a.year / 400 - b.year / 400) * 146097 + ((c1 : Int) - (c2 : Int))) <;> rfl
+
 end Chrono.Props.GenDateOps
